@@ -14,5 +14,6 @@ pub mod dns;
 pub mod net;
 pub mod prng;
 pub mod proc;
+pub mod quic;
 pub mod udp_framed;
 pub mod world;
